@@ -130,6 +130,11 @@ impl Report {
     }
 }
 
+/// a panic of the harness itself becomes a machinery error (exit 2), never a silent death and never a violation
+pub fn safe_eval<C: PropCheck>(check: &C, w: Option<&mut Worker>, cases: &[C::Case]) -> Result<Vec<Outcome>, String> {
+    std::panic::catch_unwind(std::panic::AssertUnwindSafe(|| check.eval(w, cases))).unwrap_or_else(|e| Err(format!("harness panic: {}", crate::compile::panic_message(e))))
+}
+
 pub fn make_runner(seed: u64, prop_no: u64, shard: u64) -> TestRunner {
     let s = mix(seed, prop_no, shard);
     let mut bytes = [0u8; 32];
@@ -202,14 +207,14 @@ pub fn run_generated<C: PropCheck>(check: &C, cfg: &RunCfg, cases: u64, batch: u
                         break;
                     }
                     let vals: Vec<C::Case> = trees.iter().map(|t| t.current()).collect();
-                    let outs = match check.eval(worker.as_mut(), &vals) {
+                    let outs = match safe_eval(check, worker.as_mut(), &vals) {
                         Ok(o) => o,
                         Err(e) => {
                             // find the case in flight: re-run the batch one by one on fresh workers and keep the culprit
                             let mut culprit = None;
                             for v in &vals {
                                 let mut w2 = if check.needs_worker() { Worker::spawn().ok() } else { None };
-                                if check.eval(w2.as_mut(), std::slice::from_ref(v)).is_err() {
+                                if safe_eval(check, w2.as_mut(), std::slice::from_ref(v)).is_err() {
                                     culprit = Some(check.case_json(v));
                                     break;
                                 }
@@ -346,7 +351,7 @@ pub fn run_explicit<C: PropCheck>(check: &C, cfg: &RunCfg, cases: Vec<C::Case>, 
                     None
                 };
                 for part in chunk.chunks(batch.max(1)) {
-                    let outs = match check.eval(worker.as_mut(), part) {
+                    let outs = match safe_eval(check, worker.as_mut(), part) {
                         Ok(o) => o,
                         Err(e) => {
                             rep.errors.push(e);
